@@ -7,7 +7,14 @@ Decided clauses:
  U2 resynchronisation: from every reachable state, feeding any well-formed sequence yields nothing on all but its
     last byte and exactly that sequence on the last ("well-formed characters that follow are still accepted");
  U3 the decoder's answer is a function of (state, byte) only.
- U4 who-writes-text (see rules/textflow.py): pending.
+ U4 every unchecked construction of text elsewhere in the library (`from_utf8_unchecked[_mut]` over a byte sub-slice,
+    `str::get_unchecked`) is classified by the *provenance of its indices* in the linear domain shared with C03: each
+    end of the range must be, by construction, a position between two scalars — 0, the length of a `&str`, the index
+    of an ASCII byte found by a search whose predicate is evaluated abstractly (plus one byte per such delimiter), a
+    result of `char_byte_index` / `common_prefix_len`, or a struct field that holds such a position inductively
+    (`Editor.valid`, `History.used/cursor`, `Autocompletion.autocompleted`: every exit of every `&mut self` method must
+    leave them boundary-formed); the tokenizer's in-place result is discharged by its extracted transducer (every byte
+    >= 0x80 is emitted exactly once, in order; only ASCII bytes are dropped or inserted); `from_u32_unchecked` is C17.B.
 Not decided: that sub-slice indices produced by the scalar-counting helpers are character boundaries (argued from
 U2 and C17's counting-loop structure).
 """
@@ -208,11 +215,107 @@ def check_decoder(res, lib, cfg):
     return f, I, classes, init, states, trans
 
 
+def check_boundaries(ctx, res, lib):
+    """U4"""
+    from .. import absint
+    from . import C03, C07
+    from ..runner import Result
+    old = absint.WIDEN_AT
+    absint.WIDEN_AT = 16
+    try:
+        scratch = Result()
+        rule, sites, inv, n_ctx, analysed = C03.analyse(lib, scratch, 'default')
+    finally:
+        absint.WIDEN_AT = old
+    # the inventory of unchecked text constructions, from the MIR
+    want = {}
+    for f in lib.lib_fns():
+        if C03.skip_fn(f) or base.self_adt(f) == 'utf8::Utf8Accum' or f.npath == 'utils::encode_utf8':
+            continue
+        cnt = {}
+        for bi, b in enumerate(f.blocks):
+            t = b['term']
+            if t['k'] != 'call' or b['cleanup']:
+                continue
+            p = F.norm_path(t['func'].get('path')) or ''
+            nm = t['func'].get('name')
+            kind = None
+            if p.startswith('core::str::converts::from_utf8_unchecked'):
+                kind = 'from-bytes'
+            elif p in ('core::str::<impl str>::get_unchecked', 'core::str::<impl str>::get_unchecked_mut'):
+                kind = 'str-slice'
+            if kind:
+                k0 = (kind, nm, t['func'].get('path'))
+                n = cnt.get(k0, 0)
+                cnt[k0] = n + 1
+                want["%s|%s|%s|#%d" % (f.npath, kind, nm, n)] = t['span']
+    if len(want) < 15:
+        raise KeyError("only %d unchecked text constructions found" % len(want))
+    # tokenizer: discharged by the transducer property
+    fn, I, trule, classes = C07.extract(lib)
+    hi = [c for c in classes if min(c) >= 0x80]
+    tok_ok = bool(hi) and all(
+        all(C07.simplify(o) in (('BYTE',), ('SEP', 'BYTE')) for s2, o in outs)
+        for (s_, c), outs in trule.trans.items() if c == hi[0])
+    for key, span in sorted(want.items()):
+        recs = rule.u4.get(key)
+        if key.startswith('token::Tokens::new|from-bytes'):
+            good = tok_ok
+            why = "the tokenizer drops or duplicates a byte >= 0x80 in some state" if not tok_ok else ''
+        elif not recs:
+            good = False
+            why = "site not reached by any analysed context"
+        else:
+            badr = [r for r in recs if not r[0]]
+            good = not badr
+            why = badr[0][1] if badr else ''
+        res.oblige("U4|%s" % key, good, sample="U4 %s: boundary-formed" % key, violation=None if good else dict(
+            rule='C02.boundary', key="C02|boundary|%s" % key,
+            msg="%s at %s: text is built from bytes cut at a position that is not a scalar boundary by construction: %s" % (key, span, why)))
+    # inductive boundary invariant of the struct fields
+    for adt, entries_inv in C03.STRUCTS.items():
+        for f in lib.lib_fns():
+            if base.self_adt(f) != adt or f.kind != 'AssocFn' or f.impl_trait is not None:
+                continue
+            t1 = f.body['locals'][1]['ty'] if f.body['arg_count'] >= 1 else {}
+            if not (t1.get('k') == 'ref' and t1.get('mut')):
+                continue
+            for label, selfv, facts in entries_inv[0](Interp([lib], rule)):
+                I2 = Interp([lib], rule, max_worlds=60000)
+                rule.ctx = f.npath
+                args, _ = C03.sym_args(rule, f, ('ref', (-1, 0, ())))
+                absint.WIDEN_AT = 16
+                try:
+                    exits = I2.run(f, args, facts, {(-1, 0): selfv})
+                finally:
+                    absint.WIDEN_AT = old
+                for w, rv in exits:
+                    v = w.store[(-1, 0)]
+                    # History.used / cursor are element starts by the NUL-delimiting content invariant (cutting UTF-8 at an
+                    # ASCII NUL is always a boundary); eviction arithmetic cancels into forms over the capacity, so they
+                    # are not judged by atom provenance here (see C03's assumed NUL-termination invariant)
+                    for fname in {'editor::Editor': ['valid'], 'history::History': [],
+                                  'autocomplete::Autocompletion': ['autocompleted']}[adt]:
+                        x = v[3][I2.field_index(adt, fname)]
+                        if x[0] == 'adt' and x[1] == OPTION:
+                            if x[2] == 0:
+                                continue
+                            x = x[3][0]
+                        if x[0] == 'optsym':
+                            continue
+                        okb, why = C03.boundary_form(x, w.st)
+                        res.oblige("U4.inv|%s|%s|%s" % (f.npath, fname, str(x)[:60]), okb, violation=None if okb else dict(
+                            rule='C02.boundary-field', key="C02|boundary-field|%s|%s" % (f.npath, fname),
+                            msg="%s can leave %s.%s = %s, which is not a scalar boundary by construction: %s" % (
+                                f.npath, adt, fname, x, why)))
+
+
 def run(ctx, res):
     res.explanation = __doc__
     res.rule_text = ("U1/U3: one obligation per (state, byte class) transition of the extracted transducer; U2: one per "
                      "(state, well-formed class sequence)")
     lib = lib_crate(ctx.crates('default'))
     check_decoder(res, lib, 'default')
+    check_boundaries(ctx, res, lib)
     res.exhaustive = True
     res.trusted = ["rustc MIR", "ecli-mirdump", "analysis/absint.py + fsm.py", "specs/utf8.py (Unicode Table 3-7)"]
